@@ -10,7 +10,7 @@ ENV = dict(os.environ, RUSTUP_TOOLCHAIN="1.88.0", CARGO_NET_OFFLINE="true", CARG
 SEEDED = "/verif/seeded"
 
 
-def sh(cmd, cwd=WT, timeout=3600):
+def sh(cmd, cwd=WT, timeout=1800):
     p = subprocess.run(cmd, shell=True, cwd=cwd, env=ENV, capture_output=True, text=True, timeout=timeout)
     return p.returncode, (p.stdout + p.stderr)
 
@@ -36,7 +36,8 @@ def main():
         notes = open(os.path.join(d, "notes.md")).read() if os.path.exists(os.path.join(d, "notes.md")) else ""
         patch = open(os.path.join(d, "patch.diff")).read()
         touched = sorted(set(re.findall(r"^\+\+\+ b/crates/([a-z-]+)/", patch, re.M)))
-        m = re.search(r"crates/([a-z-]+)/tests/", notes)
+        demo_text = open(os.path.join(d, "demo.rs")).read() if os.path.exists(os.path.join(d, "demo.rs")) else ""
+        m = re.search(r"crates/([a-z-]+)/tests/", demo_text) or re.search(r"crates/([a-z-]+)/tests/", notes)
         demo_crate = m.group(1) if m else (touched[0] if touched else "ruma-state-res")
         sh("git checkout -q -- . && git clean -fdq crates")
         res = {"demo_crate": demo_crate, "touched_crates": touched}
@@ -53,6 +54,8 @@ def main():
             os.remove(f"{WT}/crates/{demo_crate}/tests/seeded_demo.rs")
         suites = {}
         crates = set(touched)
+        if "ruma-identifiers-validation" in crates:
+            crates |= {"ruma-common"}
         if "ruma-common" in crates:
             crates |= {"ruma-signatures", "ruma-state-res"}
         for c in sorted(crates):
